@@ -85,7 +85,7 @@ Definition repr_str (r : option raw) : option bytes :=
   end.
 
 Definition default_string_repr (s : bytes) : bytes :=
-  match vmetrics_of true s with WOk m => as_default s m | WOverflow => [] end.
+  as_default s (vmetrics_of s).
 
 (* f64's std Display is an oracle; a float without a stored repr prints as a marker the
    correspondence differ resolves (only built trees have such floats) *)
